@@ -9,7 +9,7 @@ def main():
         ok, out = tlc.sany(os.path.basename(f))
         print('SANY %-20s %s' % (os.path.basename(f), 'ok' if ok else 'FAILED'))
         if not ok:
-            print(out[-1500:])
+            print(out[out.find('*** Errors'):][:600] if '*** Errors' in out else out[-800:])
             bad += 1
     os.makedirs(os.path.join(tlc.ROOT, 'evidence'), exist_ok=True)
     return 1 if bad else 0
